@@ -13,6 +13,7 @@ import (
 	"io"
 	"math"
 	"strconv"
+	"strings"
 
 	"github.com/fluhus/biostuff/formats/newick"
 )
@@ -198,6 +199,11 @@ func marshalBoth(n *newick.Node) ([]byte, string) {
 	txt, err := n.MarshalText()
 	if err != nil {
 		return nil, "MarshalText error"
+	}
+	if !marshalKeeps(txt, func() {
+		(&newick.Node{Name: "another tree", Distance: 2.5, Children: []*newick.Node{{Name: strings.Repeat("T", 200)}, {Name: "x"}}}).MarshalText()
+	}) {
+		return nil, "a MarshalText result is overwritten by later MarshalText calls"
 	}
 	var buf bytes.Buffer
 	if err := n.Write(&buf); err != nil {
@@ -619,7 +625,10 @@ func allForests(m int) [][]*gTree {
 var newickNamePool = []string{"", " ", "a b", "a_b", "it's", "(", "a,b", "x:y", ";", "\t", "a\nb", "\r", "'", "''", "_",
 	"\x00", "\xff", "\xc3\xa9", "\xe6\x97\xa5\xe6\x9c\xac", "plain", "A1", "'a'", "a'", "'a", "()", " lead", "trail ",
 	"1.5", "NaN", "a  b", "__", "' '", ":", ",", ")", "\n", " \t ", "a;b", "x'y'z", "''''", "\r\n", "a'_ b", "'_'",
-	"(a,b)c:1;", "e", "-", "+Inf"}
+	"(a,b)c:1;", "e", "-", "+Inf",
+	// bytes that other tools treat specially but Newick does not: a UTF-8 byte-order
+	// mark, Unicode spaces (NBSP, NEL as UTF-8 and as Latin-1 bytes), VT, FF
+	"\xef\xbb\xbfbom", "\xef\xbb\xbf", "a\xc2\xa0b", "\xc2\x85", "voil\xc3\xa0", "\xa0", "\x85", "a\vb", "a\fb", "\xe2\x80\xa8"}
 
 var newickSmallPool = []string{"", "a", " ", "_", "'", "a b", "x,y", "(", "p\nq", "it's", "''", ";"}
 
